@@ -17,7 +17,9 @@ TokLine(t) ==
       [] t = 10 -> <<106, 117, 110, 107>>                 \* "junk"    no colon
       [] t = 11 -> <<67, COLON, SP, SP, 122, SP, 58, 119, SP>>   \* "C:  z :w "  spaces, second colon
       [] t = 12 -> <<SP, DOT, DOT>>                       \* " .."     not an empty line
-AllTokens == 1..12
+      [] t = 13 -> <<SP, SP, DOT>>                        \* "  ."     an indented dot is text, not the empty-line marker
+      [] t = 14 -> <<SP, TAB, DOT, SP>>                   \* " \t. "   likewise, with trailing space
+AllTokens == 1..14
 
 Eol(crlf) == IF crlf THEN <<CR, LF>> ELSE <<LF>>
 Doc(toks, crlf, final) ==
